@@ -517,6 +517,23 @@ impl World {
         }
     }
 
+    /// The nonce just produced must have been *consumed* from the instance generator: if the
+    /// generator's next output (peeked on a clone, through the public `rng()` accessor) starts
+    /// with the same bytes, the next draw on this instance repeats the nonce.
+    fn check_generator_advanced(&mut self, encryptor: usize, nonce: &[u8], what: &str) {
+        if !self.wants(Class::Fresh) {
+            return;
+        }
+        use cosmian_crypto_core::reexport::rand_core::RngCore;
+        self.stats.check("generator-advanced");
+        let mut peek = self.encryptors[encryptor].cc.rng().clone();
+        let mut buf = vec![0u8; nonce.len()];
+        peek.fill_bytes(&mut buf);
+        if buf == nonce {
+            self.fail(Class::Fresh, format!("{what}/nonce-not-consumed-from-generator"), String::new());
+        }
+    }
+
     /// Registers the observable random values of an encapsulation.
     fn register_enc(&mut self, enc_bytes: &[u8], secret: &[u8], what: &str, m: &MEnc) {
         self.register_fresh("secret", secret, what);
@@ -642,6 +659,19 @@ impl World {
                         format!("encaps/{}", if mr.is_ok() { "expected-ok-got-err".to_string() } else { format!("expected-err-got-ok/{cause}") }),
                         format!("policy {:?} sut: {:?}", pol.text, r.as_ref().err()),
                     );
+                    // C11: a target set mixing hybridized and classic rights must give a classic
+                    // encapsulation; refusing it means the flavour was decided wrongly.
+                    if let Ok(me) = &mr {
+                        let (_, mm) = self.encryptors[e].mpk.as_ref().unwrap();
+                        let flavours: BTreeSet<bool> = me.targets.keys().filter_map(|r| mm.keys.get(r).map(|k| k.1)).collect();
+                        if flavours.len() == 2 {
+                            self.fail(
+                                Class::Flavour,
+                                "encaps/encapsulation/mixed-hint-targets-refused",
+                                format!("policy {:?} sut: {:?}", pol.text, r.as_ref().err()),
+                            );
+                        }
+                    }
                 }
                 return;
             }
@@ -674,6 +704,7 @@ impl World {
                 if bytes.len() >= enc_len + 12 {
                     let n = bytes[enc_len..enc_len + 12].to_vec();
                     self.register_fresh("pke-nonce", &n, what);
+                    self.check_generator_advanced(e, &n, what);
                 }
             }
             if let EncKind::Header { .. } = kind {
@@ -682,6 +713,7 @@ impl World {
                     if md.len() >= 12 {
                         let n = md[..12].to_vec();
                         self.register_fresh("metadata-nonce", &n, what);
+                        self.check_generator_advanced(e, &n, what);
                         // The metadata key must differ from the secret handed to the caller.
                         if self.wants(Class::Fresh) && secret.len() == 32 {
                             self.stats.check("metadata-key-differs");
@@ -776,7 +808,7 @@ impl World {
         let mut src = slot;
         if s0.bytes != s0.orig {
             for (j, o) in self.slots.iter().enumerate() {
-                if j != slot && o.kind == s0.kind && (o.orig == s0.bytes || faults::same_object(&o.kind, &o.orig, &s0.bytes)) {
+                if j != slot && o.kind == s0.kind && o.orig == s0.bytes {
                     src = j;
                     break;
                 }
@@ -828,7 +860,14 @@ impl World {
         }
         if tampered || aad_mismatch {
             // Is the mutation a no-op at object level?
-            let noop = tampered && !aad_mismatch && faults::same_object(&kind, &bytes_now, &self.slots[src].orig);
+            // C07 speaks about *bytes*: "changing any byte of its serialized form". A modified
+            // byte string that still deserializes to an equal object (non-canonical encoding) is
+            // a modification all the same; it is only told apart in the signature.
+            let same_obj = tampered && !aad_mismatch && faults::same_object(&kind, &bytes_now, &self.slots[src].orig);
+            let noop = false;
+            if same_obj {
+                self.stats.probe("modified-bytes-deserialize-to-equal-object");
+            }
             if !noop {
                 self.stats.check("tampered-read");
                 if let Ok(Some((got_secret, got_payload))) = &r {
@@ -851,7 +890,7 @@ impl World {
                     } else if aad_mismatch && !tampered {
                         format!("{kname}/authentication-data-mismatch-accepted")
                     } else {
-                        format!("{kname}/{}/{flav}", if same { "altered-input-yields-original" } else { "altered-input-yields-other-data" })
+                        format!("{kname}/{}/{flav}", if same_obj { "non-canonical-encoding-accepted" } else if same { "altered-input-yields-original" } else { "altered-input-yields-other-data" })
                     };
                     self.fail(Class::Tamper, what.clone(), format!("slot {slot} user {user}"));
                     if kind != SlotKind::Kem {
@@ -859,10 +898,35 @@ impl World {
                     }
                 } else {
                     self.stats.probe("tampered-rejected");
+                    // C12: with the encapsulation intact and an authorized key, an altered or
+                    // truncated symmetric part (or different authentication data) is an *error*,
+                    // not "not authorized".
+                    if kind != SlotKind::Kem && expect_open && matches!(r, Ok(None)) {
+                        let o = &self.slots[src];
+                        let enc_intact = match kind {
+                            SlotKind::Pke => bytes_now.len() >= o.enc_len && bytes_now[..o.enc_len] == o.orig[..o.enc_len],
+                            _ => match (wire::parse_header(&bytes_now), wire::parse_header(&o.orig)) {
+                                (Ok(a), Ok(b)) => bytes_now[..a.enc.end] == o.orig[..b.enc.end],
+                                _ => false,
+                            },
+                        };
+                        if enc_intact {
+                            self.fail(
+                                Class::Pke,
+                                format!("{kname}/altered-payload-reported-as-not-authorized"),
+                                format!("slot {slot} user {user}"),
+                            );
+                        }
+                    }
                 }
                 return;
             }
             self.stats.noop_mutations += 1;
+            if std::env::var("CCSIM_DEBUG_NOOP").is_ok() {
+                let o = &self.slots[src].orig;
+                let diff: Vec<usize> = (0..bytes_now.len().min(o.len())).filter(|i| bytes_now[*i] != o[*i]).collect();
+                eprintln!("NOOP kind {:?} len {} vs {} diff at {:?} enc_len {}", kind, bytes_now.len(), o.len(), &diff[..diff.len().min(8)], self.slots[src].enc_len);
+            }
         }
         self.stats.check("decaps");
         if expect_open {
